@@ -52,6 +52,10 @@ def strategy(tier, phase):
             "passthrough": st.sampled_from([0, 0, 1, 2, 5]),
             # consumers that are in no graph (a node removed with its inputs still attached, or built and never
             # inserted): they add uses to values without being part of what is sorted
+            # shared: a nested graph object is held a second time by the same node (another GRAPH attribute, or listed twice in
+            # its GRAPHS attribute); unnamed: some nodes / node outputs have lost their names after joining their graph
+            "shared": st.sampled_from([0, 0, 0, 1, 2, 3]),
+            "unnamed": st.sampled_from([0, 0, 0, 1, 2, 5]),
             "orphans": st.one_of(st.just([]), st.lists(st.tuples(st.integers(0, 30), st.integers(0, 1)).map(list), min_size=1, max_size=4)),
         }
     )
@@ -101,11 +105,14 @@ def build(case):
         kids = node_children[i]
         attrs = []
         if kids:
+            share = case.get("shared", 0) and (i + case.get("shared", 0)) % 2 == 0
             if kind == 1:
-                attrs.append(ir.AttrGraphs("branches", [graphs[k] for k in kids]))
+                attrs.append(ir.AttrGraphs("branches", [graphs[k] for k in kids] + ([graphs[kids[0]]] if share else [])))
             else:
                 for j, k in enumerate(kids):
                     attrs.append(ir.AttrGraph(f"body{j}", graphs[k]))
+                if share:
+                    attrs.append(ir.AttrGraph("body_again", graphs[kids[case.get("shared", 0) % len(kids)]]))
         n = ir.Node("", "Op", [None] * len(ins), attrs, num_outputs=nout, name=f"n{i}")
         for j, o in enumerate(n.outputs):
             o.name = f"n{i}_o{j}"
@@ -168,6 +175,12 @@ def build(case):
                     graphs[g].outputs.append(nodes[cands[case["passthrough"] % len(cands)]].outputs[0])
                 except ValueError:
                     pass
+    if case.get("unnamed"):
+        for i, n in enumerate(nodes):
+            if (i + case["unnamed"]) % 3 == 0:
+                n.name = None
+            if (i + case["unnamed"]) % 4 == 0:
+                n.outputs[-1].name = None
     for r, oi in case.get("orphans") or []:
         src = nodes[r % len(nodes)]
         ORPHANS.append(ir.Node("", "Orphan", [src.outputs[oi % len(src.outputs)]], num_outputs=1, name=f"orphan{len(ORPHANS)}"))
@@ -331,16 +344,19 @@ def execute(case):
     multi_root = bool(others)
     cyc = has_cycle(scope)
     pre_bad = order_violations(scope)
-    before = {g.name: [n.name for n in g] for g in graphs}
+    label = {id(n): f"n{i}" for i, n in enumerate(nodes)}
+    before = {g.name: [label.get(id(n), n.name) for n in g] for g in graphs}
     before_ids = {g.name: [id(n) for n in g] for g in graphs}
+    names_before = [(n.name, [o.name for o in n.outputs]) for n in nodes]
     fails = []
     exc = None
     try:
         run_sort(entry, root, others)
     except Exception as e:
         exc = e
-    after = {g.name: [n.name for n in g] for g in graphs}
+    after = {g.name: [label.get(id(n), n.name) for n in g] for g in graphs}
     after_ids = {g.name: [id(n) for n in g] for g in graphs}
+    names_after = [(n.name, [o.name for o in n.outputs]) for n in nodes]
     ename = ["Graph.sort", "Function.sort", "TopologicalSortPass"][entry % 3]
     if cyc:
         if not isinstance(exc, ValueError):
@@ -359,6 +375,9 @@ def execute(case):
                 fails.append((f"order-predicate/{ename}", f"after sort, nodes {bad[:4]} precede a producer they depend on; before={before} after={after}"[:600]))
             if not pre_bad and any(after_ids[g.name] != before_ids[g.name] for g in scope):
                 fails.append((f"not-stable/{ename}", f"already ordered graph changed: {before} -> {after}"[:500]))
+            if not pre_bad and names_after != names_before:
+                ch = [(a, b) for a, b in zip(names_before, names_after) if a != b][:3]
+                fails.append((f"ordered-graph-not-left-as-it-was/names/{ename}", f"sorting an already ordered graph changed names: {ch}"[:400]))
             # untouched graphs (not reachable from root) must not change
             for g in graphs:
                 if g not in scope and after_ids[g.name] != before_ids[g.name]:
@@ -366,7 +385,8 @@ def execute(case):
             # determinism: second structurally identical build
             try:
                 run_sort(entry, graphs2[0], others2)
-                after2 = {g.name: [n.name for n in g] for g in graphs2}
+                label2 = {id(n): f"n{i}" for i, n in enumerate(nodes2)}
+                after2 = {g.name: [label2.get(id(n), n.name) for n in g] for g in graphs2}
                 if after2 != after:
                     fails.append((f"nondeterministic/{ename}", f"two identical builds sorted differently: {after} vs {after2}"[:500]))
             except Exception as e:
@@ -391,6 +411,11 @@ def execute(case):
         classes.append(">=3 graphs")
     if multi_root:
         classes.append("pass_with_functions")
+    if case.get("shared") and any(len(a.value) != len({id(x) for x in a.value}) for n in nodes for a in n.attributes.values() if a.type.name == "GRAPHS") or \
+            any(len([1 for a in n.attributes.values() if a.type.name == "GRAPH"]) != len({id(a.value) for a in n.attributes.values() if a.type.name == "GRAPH"}) for n in nodes):
+        classes.append("graph_object_held_twice")
+    if case.get("unnamed"):
+        classes.append("unnamed_nodes_or_values")
     return dict(failures=fails, nontrivial=nontrivial, classes=classes)
 
 
